@@ -11,7 +11,8 @@ Next == /\ l <= Len(Trace)
         /\ l' = l + 1
         /\ LET e == Trace[l] IN
            IF e.ev = "struct" /\ StructOK(e.shape, e.obs) THEN TRUE
-           ELSE PrintT(<<"REJ", l, "C20", IF Dev_CheckAcceptsUnsound(e) THEN "Dev_CheckAcceptsUnsound"
+           ELSE PrintT(<<"REJ", l, "C20", IF Dev_TypeNameReadAsFieldTag(e) THEN "Dev_TypeNameReadAsFieldTag"
+                                    ELSE IF Dev_CheckAcceptsUnsound(e) THEN "Dev_CheckAcceptsUnsound"
                                     ELSE IF Dev_SetWritesUntaggedNamesake(e) THEN "Dev_SetWritesUntaggedNamesake"
                                     ELSE IF Dev_StringIDOnNamedTypePanics(e) THEN "Dev_StringIDOnNamedTypePanics" ELSE "NONE">>)
 Spec == Init /\ [][Next]_l
